@@ -212,6 +212,11 @@ func cmdCheck(args []string) int {
 	os.RemoveAll(work)
 	os.MkdirAll(work, 0o755)
 	cfg := SolverCfg{QueryTimeout: 10 * time.Second, IncTimeoutMs: 2500, WorkDir: work, Jobs: 4}
+	if v, err := strconv.Atoi(os.Getenv("GOVC_TIMEOUT_S")); err == nil && v > 0 {
+		// the must-fail corpus runs without the long retry of locked obligations; a longer single timeout keeps
+		// obligations that need 10-20 s from being mistaken for detections (or for alarms on harmless changes)
+		cfg.QueryTimeout = time.Duration(v) * time.Second
+	}
 	if tier == "thorough" {
 		cfg.QueryTimeout = 60 * time.Second
 		cfg.IncTimeoutMs = 10000
